@@ -208,6 +208,11 @@ func (i *Iter) Advance() Type {
 		i.off++
 		i.cur = v & JSONVALUEMASK
 		if i.t == TagNop {
+			if i.cur <= 0 {
+				// Corrupt tape. We can't send error, so move to end.
+				i.moveToEnd()
+				return TypeNone
+			}
 			// The skip count is relative to the NOP entry itself.
 			i.off += int(i.cur) - 1
 			continue
@@ -811,6 +816,9 @@ func (i *Iter) Root(dst *Iter) (Type, *Iter, error) {
 	}
 	if i.cur > uint64(len(i.tape.Tape)) {
 		return TypeNone, dst, errors.New("root element extends beyond tape")
+	}
+	if i.cur <= uint64(i.off) {
+		return TypeNone, dst, errors.New("root element ends before it starts")
 	}
 	if dst == nil {
 		c := *i
